@@ -1108,7 +1108,9 @@ def c17(tier, seed):
         body = props[pn]()["body"]
         name = "TestTrunc"
         sd = rng.randrange(1, 1 << 64)
-        runs = [{"prop": {"body": body + [op("fatalf", site=1)]}, "flags": {"nofailfile": "false", "shrinktime": "0s", "checks": "3"}},
+        # (the state machine's recording is to be a long one: it only fails once a few actions have been executed)
+        tail = [iff("n", "ge", 3, [op("fatalf", site=1)])] if pn == "sm" else [op("fatalf", site=1)]
+        runs = [{"prop": {"body": body + tail}, "flags": {"nofailfile": "false", "shrinktime": "0s", "checks": "100" if pn == "sm" else "3"}},
                 {"cleanDir": True},
                 {"truncPrev": sorted(set(list(range(0, 12)) + [rng.randrange(0, 80) for _ in range(25)])), "expect": "same_as_clean", "expectRun": 2}]
         out.append(scenario("c17-trunc-%s-%d" % (pn, i), {"body": body}, {"checks": 10, "seed": sd, "nofailfile": "true", "shrinktime": "0s", "steps": 8},
